@@ -18,7 +18,7 @@ def replay(prop_id, path):
 
 
 SRCO = {"C01": ("reader",), "C02": ("reader",), "C05": ("reader",), "C17": ("reader",),
-        "C11": ("sock", "reader"), "C12": ("sock", "reader"), "C07": ("msg",), "C14": ("msg",), "C15": ("msg",), "C19": ("helpers",),
+        "C11": ("sock", "reader"), "C12": ("sock", "reader"), "C07": ("msg",), "C14": ("msg",), "C15": ("msg",), "C19": ("helpers",), "C18": ("arr", "arr2"),
         "C03": ("msgdec",), "C04": ("reader", "msgdec"), "C06": ("msgdec",), "C09": ("msgdec",), "C16": ("msgdec",)}
 
 
